@@ -64,6 +64,23 @@ func callHash(recv reflect.Value, method string) (h string, err error) {
 	return fmt.Sprint(m.Call(nil)[0].Interface()), nil
 }
 
+// useHash does what a caller composing a larger hash does with a returned Hash: it folds more data into it. The
+// returned accumulator is the caller's; the hashed value must not notice.
+func useHash(recv reflect.Value, method string) {
+	defer func() { _ = recover() }()
+	m := recv.MethodByName(method)
+	if !m.IsValid() {
+		return
+	}
+	h := m.Call(nil)[0]
+	if add := h.MethodByName("AddString"); add.IsValid() {
+		add.Call([]reflect.Value{reflect.ValueOf("folded in by the caller")})
+	}
+	if add := h.MethodByName("AddInt64"); add.IsValid() {
+		add.Call([]reflect.Value{reflect.ValueOf(int64(0x5eed))})
+	}
+}
+
 func trunc(s string) string {
 	if len(s) > 300 {
 		return s[:300] + "..."
@@ -208,6 +225,26 @@ func Run(run *ev.Run) {
 			full := td.FullName()
 			t := corpus.R(full)
 			isCK := td.Kind == "complexkey"
+			// the hash of "no value" (a nil record pointer, an enum holding no declared constant) is a value's hash too:
+			// it stays what it is however callers go on using the Hash they were handed
+			if td.Kind == "record" || td.Kind == "enum" {
+				none := reflect.Zero(set.New(full).Type())
+				if td.Kind == "enum" {
+					none = set.New(full) // pointer to the zero enum (the unknown constant)
+				}
+				if h1, err := callHash(none, "ComputeHash"); err == nil {
+					run.Eval(1)
+					run.Count("no_value_hash_probes", 1)
+					useHash(none, "ComputeHash")
+					h2, _ := callHash(none, "ComputeHash")
+					useHash(none, "ComputeHash")
+					h3, _ := callHash(none, "ComputeHash")
+					if h1 != h2 || h2 != h3 {
+						run.Violation(GENERATION+"/hash/not-repeatable/no-value", map[string]any{"generation": GENERATION, "set": set.Name, "type": full, "kind": td.Kind,
+							"first": h1, "after_the_caller_used_the_returned_hash": h2, "again": h3})
+					}
+				}
+			}
 			for i := 0; i < perType; i++ {
 				a := g.Value(t, 0)
 				checkPool(run, set, full, t, a, isCK, rng)
@@ -252,6 +289,7 @@ func Run(run *ev.Run) {
 	run.Require("pairs_checked", 5000)
 	run.Require("values_with_colliding_map_keys", 20)
 	run.Require("values_with_large_maps", 10)
+	run.Require("no_value_hash_probes", 10)
 	run.Require("values_with_nan_pairs", 10)
 	run.Require("cross_process_digests", 2)
 }
@@ -452,7 +490,8 @@ func checkPool(run *ev.Run, set *bridge.Set, full string, t corpus.TypeExpr, a *
 			return
 		}
 		hashes[i] = h
-		// purity within the process (map iteration order differs from call to call)
+		// purity within the process (map iteration order differs from call to call; the caller keeps using the hash it got)
+		useHash(m.go_, "ComputeHash")
 		for rep := 0; rep < 6; rep++ {
 			if h2, _ := callHash(m.go_, "ComputeHash"); h2 != h {
 				run.Violation(GENERATION+"/hash/not-repeatable", desc(m, m))
